@@ -113,7 +113,13 @@ fn handle(req: &Value) -> Value {
                     let accept = req["accept"].as_bool().unwrap_or(true);
                     let mut calls: Vec<String> = Vec::new();
                     let mut f = |k: &[u8]| -> Result<(), ()> { calls.push(hex(k)); if accept { Ok(()) } else { Err(()) } };
-                    let r = hbs_lms::sign_mut::<H>(&mut msg, &sk, &mut f, None);
+                    let mut auxv: Vec<u8> = req["aux"].as_str().map(unhex).unwrap_or_default();
+                    let r = if req["aux"].is_string() {
+                        let mut slice: &mut [u8] = &mut auxv[..];
+                        hbs_lms::sign_mut::<H>(&mut msg, &sk, &mut f, Some(&mut slice))
+                    } else {
+                        hbs_lms::sign_mut::<H>(&mut msg, &sk, &mut f, None)
+                    };
                     match r {
                         Ok(s) => json!({"r": "ok", "sig": hex(s.as_ref()), "msg": hex(&msg), "calls": calls, "hash_iterations": s.hash_iterations}),
                         Err(_) => json!({"r": "err", "msg": hex(&msg), "calls": calls}),
